@@ -21,7 +21,7 @@ func init() {
 			"the quantifier says 'for every field that has' a wire limit: besides the limits the statement lists, every scalar field narrower on the wire than in Go (space over-width-fields) and the 16-bit length field of every type whose size is unbounded (space length-field) are judged; the pinned tree masks the over-wide scalars silently (known findings)",
 		},
 		BoundsQuick:    "over-width: every bounded scalar leaf of every base value of D at its first/middle/last occurrence x {1<<width, type max}, chunk encoders; length field: sizes 262136..524316 for SR/RR/XR/FIR/SDES/CCFB with exact 262144 probes; counts {0,1,30,31,32,33,255,256,257}; texts {0,1,254,255,256,257,511,512}; TotalLost all 2^k-1,2^k,2^k+1 for k<=32 at 3 positions in SR and RR; REMB SSRCs {254..257,512}; CCFB metric blocks {16383..16386,32768} at 3 block positions; APP names 0..8 octets; TWCC delta boundary ticks at every position of lists of <= 3",
-		BoundsThorough: "adds counts/texts 65535,65536,65537 and CCFB 65535..65537",
+		BoundsThorough: "as quick over D thorough, with every occurrence of every bounded scalar leaf set beyond its width; CCFB metric-block counts up to 131072+16384",
 	})
 }
 
@@ -494,7 +494,7 @@ func runC08(c *bx.Ctx) {
 			continue
 		}
 		b := b
-		ref.OverWidthEach(b.Make, func(p rtcp.Packet, path, key string, v uint64) {
+		ref.OverWidthEach(b.Make, c.Thorough(), func(p rtcp.Packet, path, key string, v uint64) {
 			out, err, pan := safeMarshal(p)
 			c.T(1)
 			rp := bx.Replay{Entry: "Marshal", Ops: fmt.Sprintf("%s{%s} with %s = %#x", b.Type, b.Shape, path, v), Expected: "an error and no bytes", Value: ref.Dump(p)}
